@@ -53,6 +53,10 @@ def run(model: Model, rep: Report) -> None:
     tounicode_ranges_rule(model, rep, "C06-R7")
     encoding_table_rule(model, rep, "C06-R8")
     _type1_header(model, rep)
+    from .c12 import font_cache_key_rule
+
+    font_cache_key_rule(model, rep, "C06-R11")
+    _surrogates(model, rep)
     init_order_rule(model, rep, "C06-R9", ["pdfminer.pdffont.PDFType1Font", "pdfminer.pdffont.PDFTrueTypeFont", "pdfminer.pdffont.PDFType3Font", "pdfminer.pdffont.PDFCIDFont", "pdfminer.pdffont.PDFSimpleFont"])
     # ---------------------------------------------------------------- R2
     r2 = rep.rule("C06-R2", "TABLE", "WinAnsi/MacRoman columns agree with Python's cp1252/mac_roman except the documented codes; columns are functions of the code; names resolve", 6)
@@ -259,3 +263,51 @@ def _type1_header(model: Model, rep: Report) -> None:
     r10.check(kw is not None and "".join(unparse(kw).split()) == "KWD(b'put')", site(dk), P, "the keyword is `put`", why="keyword changed")
     s2 = "".join(unparse(ge.node).split()).replace("cid,name=self.nextobject()", "(cid,name)=self.nextobject()")
     r10.check("(cid,name)=self.nextobject()" in s2 and "exceptPSEOF:break" in s2 and "self._cid2unicode[cid]=name2unicode(cast(str,name))" in s2 and "exceptKeyErrorase:" in s2 and s2.endswith("returnself._cid2unicode"), site(ge), ge.qualname, "each reported pair is stored as code -> name2unicode(name); names without a Unicode value are left out; the table built is returned", why="changed")
+
+
+def _surrogates(model: Model, rep: Report) -> None:
+    r12 = rep.rule("C06-R12", "RANGE", "glyph names uniXXXX / uXXXX: exactly the surrogate code points D800..DFFF are refused", 1)
+    f = model.func("pdfminer.encodingdb.raise_key_error_for_invalid_unicode")
+    p = f.params[0]
+    found = None
+    lo = hi = None
+    for n in walk_no_nested(f.node):
+        if found is not None:
+            break
+        if isinstance(n, ast.If) and any(isinstance(x, ast.Raise) for x in n.body):
+            lo = hi = None
+            t = n.test
+            # d in the open interval (a, b)  |  a < d and d < b  |  a <= d <= b ...
+            cmps = []
+            if isinstance(t, ast.Compare):
+                ops, items = t.ops, [t.left] + list(t.comparators)
+                cmps = [(items[i], ops[i], items[i + 1]) for i in range(len(ops))]
+            elif isinstance(t, ast.BoolOp) and isinstance(t.op, ast.And):
+                for v in t.values:
+                    if isinstance(v, ast.Compare) and len(v.ops) == 1:
+                        cmps.append((v.left, v.ops[0], v.comparators[0]))
+            for a, op, b in cmps:
+                def cv(x):
+                    return x.value if isinstance(x, ast.Constant) and isinstance(x.value, int) else None
+                if isinstance(b, ast.Name) and b.id == p and cv(a) is not None:  # const OP d
+                    if isinstance(op, ast.Lt):
+                        lo = cv(a) + 1
+                    elif isinstance(op, ast.LtE):
+                        lo = cv(a)
+                    elif isinstance(op, ast.Gt):
+                        hi = cv(a) - 1
+                    elif isinstance(op, ast.GtE):
+                        hi = cv(a)
+                elif isinstance(a, ast.Name) and a.id == p and cv(b) is not None:  # d OP const
+                    if isinstance(op, ast.Lt):
+                        hi = cv(b) - 1
+                    elif isinstance(op, ast.LtE):
+                        hi = cv(b)
+                    elif isinstance(op, ast.Gt):
+                        lo = cv(b) + 1
+                    elif isinstance(op, ast.GtE):
+                        lo = cv(b)
+            if lo is not None and hi is not None:
+                found = (lo, hi)
+    lo, hi = found if found is not None else (None, None)
+    r12.check((lo, hi) == (0xD800, 0xDFFF), site(f), f.qualname, "refused range is [0xD800, 0xDFFF]", why=f"refused range is [{lo if lo is None else hex(lo)}, {hi if hi is None else hex(hi)}]: a glyph name such as uniD800 or uDFFF yields a lone surrogate instead of the (cid:N) placeholder")
